@@ -371,6 +371,20 @@ impl Gen {
                         }
                     }
                 }
+                // entry-like payload whose 64-byte grid is phased so that a grid point falls on the first block boundary
+                // the entry crosses (the continuation frame's payload then starts with a well-formed entry header)
+                if n == 1 && rng.chance(1, 10) {
+                    if let Some((_, off)) = d.cursor {
+                        let rem = BLOCK - off % BLOCK;
+                        let head = 7 + 11 + d.names[q].len() + 12;
+                        let rem = if rem < 7 { BLOCK + rem } else { rem };
+                        if rem > head && (lens[0] as usize) > rem - head + 40 {
+                            let phase = ((rem - head) % 64) as u32;
+                            let uid = self.uid() | crate::model::ENTRY_LIKE | (phase << 24);
+                            return Op::Append { q, pos, lens, uid };
+                        }
+                    }
+                }
                 // batches: make a frame boundary coincide with a record boundary (the first frame of the entry then
                 // ends exactly after a whole record; what a reader does with a lost or mis-typed frame shows there)
                 if n >= 2 && cfg.profile == Profile::Batches && rng.chance(2, 5) {
